@@ -120,8 +120,11 @@ def build_spec(spec):
         g.add_rocktype(t.rocktype(name=r[0], density=float(r[1])))
     for b in spec['blocks']:
         g.add_block(t.t2block(b[0], b[2], g.rocktype[b[1]], centre=b[3]))
+    if not spec_ok(spec):
+        raise RuntimeError('harness: ill-formed grid recipe %r' % (spec,))
     for c in spec['cons']:
-        g.add_connection(make_con([g.blocklist[c[0]], g.blocklist[c[1]]], c[2]))
+        # the blocks named by blocks[i], blocks[j] (as the model's specOps does)
+        g.add_connection(make_con([g.block[spec['blocks'][c[0]][0]], g.block[spec['blocks'][c[1]][0]]], c[2]))
     return g
 
 
